@@ -369,7 +369,8 @@ func checkDivisor(r *core.Run, ck *guard.Checker, key string, pos token.Pos, b *
 		r.Discharge("L2-div", key, r.P.Pos(pos), what+" dominated by a non-zero test of the divisor")
 		return
 	}
-	pbOK, pbWhy := paramBound(r, dT)
+	// a module parameter handed to an extracted helper as an argument is still that validated parameter
+	pbOK, pbWhy := paramBound(r, normT(anchorTerm(r, ck.Fn, dT)))
 	if pbOK {
 		r.Discharge("L2-div", key, r.P.Pos(pos), pbWhy)
 		return
